@@ -395,7 +395,10 @@ def _judge_a(ctx, comp, par, versions, pins, reverse_order, case, second, n_repo
             "_mk_components_versions_cache": lambda self: self.__dict__.setdefault("_vf_kept_cache", {})})
         ctx.count("owners_that_keep_their_versions_cache_between_reports")
     order_in = [('par', pcls('par', src(par, 'par'), remote)),
-                ('comp', type(mg.component_repo_for('comp', comp))('comp', src(comp, 'comp'), remote))]
+                # (the component's repository object may carry another id of its own - the name of its project - than
+                # the id the collection knows it by, which is the id the owner's version files use)
+                ('comp', type(mg.component_repo_for('comp', comp))('comp' if len(versions) % 3 else 'proj-lib',
+                                                                   src(comp, 'comp'), remote))]
     if second:
         order_in.insert(1, ('comp2', type(mg.component_repo_for('comp2', second[0]))('comp2', src(second[0], 'comp2'),
                                                                                     remote)))
@@ -424,6 +427,11 @@ def _judge_a(ctx, comp, par, versions, pins, reverse_order, case, second, n_repo
             ctx.count("reports_on_a_reused_collection")
     except Exception as err:
         ctx.violation("report-raises", {"type": type(err).__name__, "msg": str(err)[:200]}, case)
+        return
+    if sorted(data) != sorted(n for n, _ in order_in):
+        # (the reports are labelled with the ids the collection knows its repositories by)
+        ctx.violation("reports-not-labelled-with-the-ids-of-the-collection",
+                      {"labels": sorted(map(str, data)), "ids": sorted(n for n, _ in order_in)}, case)
         return
     judge_component(ctx, data, 'comp', comp, par, versions, pins, case)
     two_trunks = "origin/main" in par.branches and "origin/master" in par.branches
